@@ -284,7 +284,8 @@ class Polynomial(Vector):
                              'integers')
 
         if arg == 0:
-            return Polynomial([1.])
+            # The constant polynomial 1, with the shape and mask of self
+            return Polynomial(np.ones(self._shape_ + (1,)), self._mask_)
 
         if arg == 1:
             return self
